@@ -5,6 +5,7 @@ import (
 	"os"
 	"strconv"
 	"sync"
+	"sync/atomic"
 	"time"
 
 	"github.com/openebs/jiva/types"
@@ -685,9 +686,12 @@ func RunSnapshots(w *World, idx int) {
 		for k := 0; k < nsnap; k++ {
 			name := fmt.Sprintf("x%d", snapNo)
 			snapNo++
-			s := w.rec(Step{K: "snapshot", Note: "concurrent with writers", Addr: name})
-			if _, err := w.C.Snapshot(name); err != nil {
-				s.Res = err.Error()
+			if _, err := w.SnapshotOp(name, "concurrent with writers", nil, nil); err != nil {
+				if w.Dead {
+					close(stop)
+					wg.Wait()
+					return
+				}
 			} else {
 				names = append(names, name)
 				w.Res.Count("snapshots_under_concurrent_writes", 1)
@@ -744,17 +748,44 @@ func RunSnapshots(w *World, idx int) {
 		}
 		// failure phase
 		fs, _ := w.Attached()
-		switch r.Intn(5) {
+		switch r.Intn(6) {
+		case 5: // a replica is removed while a snapshot request is in flight (slow REST lookup)
+			if len(fs) < 2 {
+				break
+			}
+			for _, f := range fs {
+				atomic.StoreInt32(&f.GetDelayMs, int32(r.Range(30, 80)))
+			}
+			g := fs[r.Intn(len(fs))]
+			lead := time.Duration(r.Range(0, 25)) * time.Millisecond
+			done := make(chan struct{})
+			go func() {
+				defer close(done)
+				time.Sleep(lead)
+				w.C.RemoveReplica(g.Addr)
+			}()
+			w.SnapshotOp(fmt.Sprintf("x%d", snapNo), "races with removal of "+g.Addr, nil, g)
+			snapNo++
+			<-done
+			for _, f := range fs {
+				atomic.StoreInt32(&f.GetDelayMs, 0)
+			}
+			w.rec(Step{K: "remove", Addr: g.Addr, Note: "concurrent with the snapshot"})
+			w.Res.Count("snapshot_vs_removal_races", 1)
+			if w.Dead {
+				return
+			}
+			w.CheckSettled("remove")
 		case 0: // snapshot fails on one replica
 			f := fs[r.Intn(len(fs))]
 			f.mu.Lock()
 			f.SnapFail = true
 			f.mu.Unlock()
-			s := w.rec(Step{K: "snapshot", Note: "fails on " + f.Addr})
-			_, err := w.C.Snapshot(fmt.Sprintf("x%d", snapNo))
+			w.SnapshotOp(fmt.Sprintf("x%d", snapNo), "fails on "+f.Addr, f, nil)
 			snapNo++
-			if err != nil {
-				s.Res = err.Error()
+			w.Res.Count("snapshot_failures_scripted", 1)
+			if w.Dead {
+				return
 			}
 			w.CheckSettled("snapshot-failure")
 		case 1: // set-checkpoint fails on one (healthy, staying) replica at the next recording
